@@ -328,9 +328,16 @@ func (ns *normState) freeNamesOK(s *inlSite) (map[string]string, bool) {
 		return nil, false
 	}
 	ok := true
+	selNames := map[*ast.Ident]bool{}
+	ast.Inspect(c.decl, func(n ast.Node) bool {
+		if se, isSel := n.(*ast.SelectorExpr); isSel {
+			selNames[se.Sel] = true
+		}
+		return true
+	})
 	ast.Inspect(c.decl, func(n ast.Node) bool {
 		id, isId := n.(*ast.Ident)
-		if !isId || id.Name == "_" {
+		if !isId || id.Name == "_" || selNames[id] {
 			return true
 		}
 		obj := info.Uses[id]
